@@ -58,6 +58,33 @@ BIT2SIG = {b: s for s, (_, b) in SIGS.items() if b}
 _variant_cache = {}
 
 
+def apply_patch_text(text, patch_text):
+    """apply a unified diff by content: each hunk is reduced to its changed lines plus one line of
+    context on each side and must match exactly once (more tolerant of unrelated edits nearby than
+    patch(1), never applies at a wrong place)"""
+    hunks, cur = [], None
+    for l in patch_text.split("\n"):
+        if l.startswith("@@"):
+            cur = []
+            hunks.append(cur)
+        elif cur is not None and l[:1] in (" ", "-", "+"):
+            cur.append(l)
+    for h in hunks:
+        idx = [i for i, l in enumerate(h) if l[0] in "+-"]
+        if not idx:
+            continue
+        for before, after in ((1, 1), (2, 2), (3, 3), (1, 0), (2, 0), (3, 0), (0, 1), (0, 2), (0, 3)):
+            part = h[max(0, idx[0] - before):min(len(h), idx[-1] + 1 + after)]
+            old = "".join(l[1:] + "\n" for l in part if l[0] in " -")
+            new = "".join(l[1:] + "\n" for l in part if l[0] in " +")
+            if text.count(old) == 1:
+                text = text.replace(old, new)
+                break
+        else:
+            raise RuntimeError("a hunk does not match exactly once with any context width")
+    return text
+
+
 def patched_harness(patches):
     """harness built from a scratch copy of c2mir.c with the given candidate repairs applied;
     None if a patch does not apply (already merged, or the code around it changed)"""
@@ -72,13 +99,14 @@ def patched_harness(patches):
     try:
         if not os.path.exists(src + ".ok"):
             shutil.rmtree(d, ignore_errors=True)
-            os.makedirs(os.path.join(d, "c2mir"))
-            shutil.copy(os.path.join(REPO, "c2mir/c2mir.c"), os.path.join(d, "c2mir/c2mir.c"))
+            os.makedirs(d)
+            text = open(os.path.join(REPO, "c2mir/c2mir.c")).read()
             for pf in pfiles:
-                rc, out = sh(["patch", "-p1", "-s", "-N", "-d", d, "-i", pf])
-                if rc != 0:
-                    raise RuntimeError(f"patch {os.path.basename(pf)} does not apply: {out[-200:]}")
-            shutil.move(os.path.join(d, "c2mir/c2mir.c"), src)
+                try:
+                    text = apply_patch_text(text, open(pf).read())
+                except RuntimeError as e:
+                    raise RuntimeError(f"patch {os.path.basename(pf)} does not apply: {e}")
+            open(src, "w").write(text)
             open(src + ".ok", "w").write("ok")
         exe = ck.cc("c09_ppfix_" + h[:10], ["harness/c09_pp.c", os.path.join(REPO, "mir.c")],
                     HARNESS_FLAGS + [f'-DC09_C2MIR_C="{src}"', "-I" + os.path.join(REPO, "c2mir")], deps=pfiles)
@@ -322,12 +350,37 @@ def shrink(case, budget=150):
         except Exception:
             return False
 
+    def section_end(c, i):
+        """index after the group that starts at directive line i (whole section for #if*, one group for
+        #elif/#else)"""
+        depth = 0
+        opener = c[i]["k"] in ("if", "ifdef", "ifndef")
+        for j in range(i + 1, len(c)):
+            k = c[j]["k"]
+            if k in ("if", "ifdef", "ifndef"):
+                depth += 1
+            elif k == "endif":
+                if depth == 0:
+                    return j + 1 if opener else j
+                depth -= 1
+            elif k in ("elif", "else") and depth == 0 and not opener:
+                return j
+        return None
+
     changed = True
     while changed and n[0] <= budget:
         changed = False
         i = 0
         while i < len(cur) and n[0] <= budget:
-            if cur[i]["k"] in ("if", "elif", "else", "endif", "ifdef", "ifndef"):
+            if cur[i]["k"] in ("if", "elif", "else", "ifdef", "ifndef"):
+                e = section_end(cur, i)
+                cand = cur[:i] + cur[e:] if e else None
+                if cand and ok(cand):
+                    cur = cand; changed = True
+                else:
+                    i += 1
+                continue
+            if cur[i]["k"] == "endif":
                 i += 1
                 continue
             cand = cur[:i] + cur[i + 1:]
